@@ -738,4 +738,59 @@ pub fn generate(tier: &str, seed: u64, out: &mut Out) {
             out.count("trivial");
         }
     }
+    // start times that differ only below the millisecond (quarters), in any file order: the
+    // order is by the start TIME, not by its integer part
+    let mut r2 = Rng::new(seed ^ 0xC15F);
+    for i in 0..n {
+        let m = gen_map(&mut r2, i % 2 == 0);
+        let mut text = String::new();
+        let mut in_ho = false;
+        for l in m.text(0).lines() {
+            if l.starts_with('[') {
+                in_ho = l == "[HitObjects]";
+            }
+            let f: Vec<&str> = l.split(',').collect();
+            if in_ho && f.len() >= 5 && !f[2].starts_with('-') {
+                let frac = *r2.pick(&["", ".25", ".5", ".75", ".125", ""]);
+                // spinner / hold end times move with the start
+                let mut g: Vec<String> = f.iter().map(|x| x.to_string()).collect();
+                g[2] = format!("{}{}", f[2], frac);
+                text += &g.join(",");
+            } else {
+                text += l;
+            }
+            text.push('\n');
+        }
+        out.count("submillisecond.maps");
+        check_order_text(&text, out);
+        if i % 4 == 0 {
+            let e = if decoders::MODEL_DECODERS.contains(&7) { 7 } else { 6 };
+            decoders::model_case(e, &text, out, "c15-submillisecond");
+        }
+    }
+}
+
+/// the order clause alone, on any text: the processed list is the stable sort of the file-order
+/// list by start time
+fn check_order_text(text: &str, out: &mut Out) {
+    let desc = format!("{:?}", text);
+    let Some(v) = decode(text) else {
+        out.fail("", &desc, "HitObjects decode failed");
+        return;
+    };
+    let pre = pre_objects(text);
+    out.oracle_checks += 1;
+    if v.hit_objects.len() != pre.len() {
+        out.fail("", &desc, &format!("object count changed by processing: {} -> {}", pre.len(), v.hit_objects.len()));
+        return;
+    }
+    let mut want: Vec<usize> = (0..pre.len()).collect();
+    want.sort_by(|&a, &b| pre[a].start_time.partial_cmp(&pre[b].start_time).unwrap_or(std::cmp::Ordering::Equal));
+    for (i, &j) in want.iter().enumerate() {
+        let h = &v.hit_objects[i];
+        if h.start_time.to_bits() != pre[j].start_time.to_bits() || kind_tag(h) != kind_tag(&pre[j]) {
+            out.fail("", &desc, &format!("object at output index {} (start {}) is not the object expected from a stable sort by start time (file index {}, start {})", i, h.start_time, j, pre[j].start_time));
+            return;
+        }
+    }
 }
